@@ -150,4 +150,104 @@ theorem hitG_eq_count {α : Type} (ev : List α → Bool) (R : List α) :
   have : (R.length.factorial : ℚ) ≠ 0 := by positivity
   field_simp
 
+/-! ### sample numbers from an order -/
+
+/-- the value of the `i`-th call of the generator when the induced order of the cards is `π`: the card at
+position `k` of `π` gets the number `num k` -/
+def numsOf (num : Nat → Nat) (π : List Nat) : Nat → Nat := fun i => num (π.idxOf i)
+
+/-- `cvr_list` after `assign_sample_nums`: `base` in its own (manifest) order with the sample numbers that put
+the cards into the order `π` -/
+def cvrList (base : List Sampling.Card) (num : Nat → Nat) (π : List Nat) : List Sampling.Card :=
+  Sampling.assignSampleNums (numsOf num π) base
+
+/-- card `i` lists contest `cid` -/
+def lists (base : List Sampling.Card) (cid : String) (i : Nat) : Bool :=
+  match base[i]? with
+  | some cd => cd.has cid
+  | none => false
+
+/-- the (card, index) pair of index `i` -/
+def pairAt (cl : List Sampling.Card) (i : Nat) : Sampling.Card × Nat := ((cl[i]?).getD ⟨[], 0, false⟩, i)
+
+theorem cvrList_getElem? (base : List Sampling.Card) (num : Nat → Nat) (π : List Nat) (i : Nat) :
+    (cvrList base num π)[i]? = base[i]?.map (fun cd => { cd with sampleNum := num (π.idxOf i) }) := by
+  unfold cvrList Sampling.assignSampleNums numsOf
+  rw [List.getElem?_map, List.getElem?_zipIdx]
+  cases base[i]? <;> simp
+
+theorem cvrList_length (base : List Sampling.Card) (num : Nat → Nat) (π : List Nat) :
+    (cvrList base num π).length = base.length := by
+  unfold cvrList Sampling.assignSampleNums; simp
+
+theorem pairAt_has (base : List Sampling.Card) (num : Nat → Nat) (π : List Nat) (cid : String) (i : Nat) :
+    (pairAt (cvrList base num π) i).1.has cid = lists base cid i := by
+  unfold pairAt lists
+  rw [cvrList_getElem?]
+  cases base[i]? <;> simp [Sampling.Card.has]
+
+theorem pairAt_num (base : List Sampling.Card) (num : Nat → Nat) (π : List Nat) (i : Nat) (hi : i < base.length) :
+    (pairAt (cvrList base num π) i).1.sampleNum = num (π.idxOf i) := by
+  unfold pairAt
+  rw [cvrList_getElem?, List.getElem?_eq_getElem hi]
+  simp
+
+theorem idxOf_pairwise : ∀ {l : List Nat}, l.Nodup → l.Pairwise (fun a b => l.idxOf a < l.idxOf b)
+  | [], _ => List.Pairwise.nil
+  | x :: t, h => by
+    rw [List.nodup_cons] at h
+    rw [List.pairwise_cons]
+    constructor
+    · intro b hb
+      have : x ≠ b := fun e => h.1 (e ▸ hb)
+      simp [this]
+    · refine List.Pairwise.imp_of_mem ?_ (idxOf_pairwise h.2)
+      intro a b ha hb hab
+      have h1 : x ≠ a := fun e => h.1 (e ▸ ha)
+      have h2 : x ≠ b := fun e => h.1 (e ▸ hb)
+      simp [h1, h2, hab]
+
+theorem cvrList_distinct (base : List Sampling.Card) (num : Nat → Nat) (hnum : StrictMono num) (π : List Nat)
+    (hπ : π.Perm (List.range base.length)) : Sampling.DistinctNums (cvrList base num π) := by
+  unfold Sampling.DistinctNums cvrList
+  rw [(C07.sample_nums_function_of_seed_and_position _ base).1]
+  apply List.Nodup.map_on _ List.nodup_range
+  intro x hx y _ hxy
+  unfold numsOf at hxy
+  exact (List.idxOf_inj (hπ.mem_iff.2 hx)).1 (hnum.injective hxy)
+
+/-- **a uniformly random assignment of sample numbers IS a uniformly random order**: the cards sorted by the
+sample numbers `numsOf num π` are the cards in the order `π` -/
+theorem sortedPairs_cvrList (base : List Sampling.Card) (num : Nat → Nat) (hnum : StrictMono num) (π : List Nat)
+    (hπ : π.Perm (List.range base.length)) :
+    Sampling.sortedPairs (cvrList base num π) = π.map (pairAt (cvrList base num π)) := by
+  set cl := cvrList base num π with hcl
+  have hd := cvrList_distinct base num hnum π hπ
+  apply Sampling.eq_of_perm_of_strict (R := Sampling.numLT)
+  · intro a b h1 h2; unfold Sampling.numLT at h1 h2; omega
+  · refine (Sampling.sortedPairs_perm cl).trans ?_
+    have hz : cl.zipIdx = (List.range base.length).map (pairAt cl) := by
+      apply List.ext_getElem?
+      intro i
+      rw [List.getElem?_zipIdx, List.getElem?_map]
+      by_cases hi : i < base.length
+      · have hi' : i < cl.length := by rw [hcl, cvrList_length]; exact hi
+        rw [List.getElem?_range hi, List.getElem?_eq_getElem hi']
+        simp [pairAt, List.getElem?_eq_getElem hi']
+      · have hi' : ¬ i < cl.length := by rw [hcl, cvrList_length]; exact hi
+        rw [List.getElem?_eq_none (by omega), List.getElem?_eq_none (by simp; omega)]
+        rfl
+    rw [hz]
+    exact (hπ.map _).symm
+  · exact Sampling.sortedPairs_strict hd
+  · rw [List.pairwise_map]
+    have hnd : π.Nodup := hπ.symm.nodup List.nodup_range
+    refine List.Pairwise.imp_of_mem ?_ (idxOf_pairwise hnd)
+    intro a b ha hb hab
+    have ha' : a < base.length := List.mem_range.1 (hπ.mem_iff.1 ha)
+    have hb' : b < base.length := List.mem_range.1 (hπ.mem_iff.1 hb)
+    unfold Sampling.numLT
+    rw [hcl, pairAt_num _ _ _ _ ha', pairAt_num _ _ _ _ hb']
+    exact hnum hab
+
 end Shangrla.RiskLimit
